@@ -42,15 +42,17 @@ Theorem C18_mha_read_by_itk :
 Proof. exact mha_read_by_itk. Qed.
 Print Assumptions C18_mha_read_by_itk.
 
-(* 4. native .mha round trip.
-      FULL STATEMENT (false of the tree as it is -- see the refutations below):
-        forall K A D c x, D = 2 \/ D = 3 -> wf_image D x -> In (i_type x) torch_types ->
-        exists f, write_meta D c x = Some f /\ read_meta f = Some x.
-      What is proved: (a) the conditional form -- exact whenever the reader accepts the configuration and the
-      header conventions invert each other; (b) both premises hold for 3-D scalar images; (c) the reader rejects
-      every 2-D image and every multi-channel image the writer produces.  Once read_meta_image_from_fileobj is
-      repaired, gen_meta_r_status / gen_meta_r_*_2 regenerate, (c) stops building and the full statement follows
-      from (a) by `vm_compute` premises exactly as in meta_roundtrip_3_scalar. *)
+(* 4. native .mha round trip.  FULL: D = 2, 3, every channel count, size, oriented anisotropic grid, torch element
+      type, compressed or not.  (Obtained from the conditional form: the reader accepts every configuration --
+      gen_meta_r_status, regenerated from meta.py -- and the header conventions of both dimensions invert each other.) *)
+Theorem C18_meta_roundtrip :
+  forall (K : fld) (A : Type) (D : nat) (c : bool) (x : image K A),
+  D = 2%nat \/ D = 3%nat -> wf_image D x -> In (i_type x) torch_types ->
+  exists f, write_meta D c x = Some f /\ read_meta f = Some x.
+Proof. exact meta_roundtrip. Qed.
+Print Assumptions C18_meta_roundtrip.
+
+(* the conditional form it is derived from (kept: it is what survives if a reader branch breaks again) *)
 Theorem C18_meta_roundtrip_conditional :
   forall (K : fld) (A : Type) (D : nat) (c : bool) (x : image K A),
   D = 2%nat \/ D = 3%nat -> wf_image D x -> In (i_type x) torch_types ->
@@ -59,32 +61,20 @@ Theorem C18_meta_roundtrip_conditional :
 Proof. exact meta_roundtrip_cond. Qed.
 Print Assumptions C18_meta_roundtrip_conditional.
 
-Theorem C18_meta_roundtrip_partial :
-  forall (K : fld) (A : Type) (c : bool) (x : image K A),
-  wf_image 3 x -> i_chan x = 1%nat -> In (i_type x) torch_types ->
-  exists f, write_meta 3 c x = Some f /\ read_meta f = Some x.
-Proof. exact meta_roundtrip_3_scalar. Qed.
-Print Assumptions C18_meta_roundtrip_partial.
+(* data handed to write_image WITHOUT a channel dimension (data.ndim = grid.ndim) produces exactly the file of the
+   same data with one channel (header and payload, D = 2, 3, compressed or not; traced), so the theorem above with
+   C = 1 covers it: it reads back as the (1, ..., X) image *)
+Theorem C18_meta_no_channel_dim : gen_meta_w_nochannel_ok = true /\ gen_meta_w_nochannel_same_as_c1 = true.
+Proof. exact meta_nochannel_ok. Qed.
+Print Assumptions C18_meta_no_channel_dim.
 
-Theorem C18_meta_roundtrip_refuted_2d :
-  forall (K : fld) (A : Type) (c : bool) (x : image K A) (f : mfile K A),
-  write_meta 2 c x = Some f -> read_meta f = None.
-Proof. exact meta_read_fails_2d. Qed.
-Print Assumptions C18_meta_roundtrip_refuted_2d.
-
-Theorem C18_meta_roundtrip_refuted_multichannel :
-  forall (K : fld) (A : Type) (D : nat) (c : bool) (x : image K A) (f : mfile K A),
-  D = 2%nat \/ D = 3%nat -> (2 <= i_chan x)%nat -> write_meta D c x = Some f -> read_meta f = None.
-Proof. exact meta_read_fails_multichannel. Qed.
-Print Assumptions C18_meta_roundtrip_refuted_multichannel.
-
-(* 5. a .mha written by ITK (its convention) is read back by the library: 3-D scalar only on this tree *)
-Theorem C18_itk_mha_read_partial :
-  forall (K : fld) (A : Type) (c : bool) (x : image K A),
-  wf_image 3 x -> i_chan x = 1%nat -> In (i_type x) torch_types ->
-  exists f, itk_write_mha 3 c (write_sitk 3 x) = Some f /\ read_meta f = Some x.
-Proof. exact itk_mha_read_3_scalar. Qed.
-Print Assumptions C18_itk_mha_read_partial.
+(* 5. a .mha written by ITK (its convention) is read back by the library.  FULL: D = 2, 3, any channel count *)
+Theorem C18_itk_mha_read :
+  forall (K : fld) (A : Type) (D : nat) (c : bool) (x : image K A),
+  D = 2%nat \/ D = 3%nat -> wf_image D x -> In (i_type x) torch_types ->
+  exists f, itk_write_mha D c (write_sitk D x) = Some f /\ read_meta f = Some x.
+Proof. exact itk_mha_read. Qed.
+Print Assumptions C18_itk_mha_read.
 
 (* 6. NIfTI.  FULL STATEMENT (false): write_nifti D x = Some f /\ read_nifti f = Some x.  On this tree the writer
       produces no file at all (a D x D matrix is passed where nibabel requires 4 x 4); the reader is exact on
